@@ -37,7 +37,7 @@ CHECKS = {
  "C05": _e("explicit-state model checking of the real Heap: BFS to fixpoint from the empty heap (reference priority "
            "queue in lock-step) plus depth-bounded BFS from every valid heap arrangement of up to 9 (10) keys",
            "Every reachable joint state (real Heap fields x reference queue) for capacities 1..5 (thorough ..7), both "
-           "policies, all key tie patterns incl. FLOAT_MAX/inf, re-insertion of removed elements, and every operation sequence of length <= 2 (3) from "
+           "policies, all key tie patterns incl. FLOAT_MAX/inf, re-insertion of removed elements, policies given through the setter or as run-time built strings, and every operation sequence of length <= 2 (3) from "
            "each of the 1198 (4558) valid heaps of 6..9 (10) distinct keys built through real inserts; every "
            "transition calls the real method, every state is drained on a copy.", engine="explorer-B"),
  "C06": _e("bounded-exhaustive evaluation of every metric on all ordered vector pairs of the domain grids (caller "
@@ -57,7 +57,7 @@ CHECKS = {
            "the domain grids (pair matrix filled by real calls)",
            "Finite/symmetric/non-negative/zero-self on all ordered pairs and triangle on all ordered triples of the "
            "class grids (incl. the tolerance ladder around 1e-8 / 1e-5 and zero-containing vectors) for the rows of "
-           "the axiom table; finiteness and symmetry also on vectors of length 32..1024; every zero also as -0.0; integer-typed vectors with exact zeros against their float64 copies."),
+           "the axiom table; finiteness and symmetry also on vectors of length 32..1024; every zero also as -0.0; integer-typed vectors with exact zeros against their float64 copies; keyword-argument calls."),
  "C09": _e("exhaustive enumeration of all batches (<=3) and all two-call histories over a query pool for every fitted "
            "model of the bounded families; model-state hash closes the history space; batches of 33..81 samples",
            "For each of the four kinds and every lattice training sequence (KNN/unsupervised also with k forced), "
@@ -69,7 +69,7 @@ CHECKS = {
            "For every dataset in the bounds the distance file is produced by pre_compute_distance (.txt and .csv) and "
            "every ordered train/test index split is trained and predicted twice (file-fed vs feature-fed); node "
            "state, order, best_k, clusters and predictions must be bit-identical; get_distances() vs the metric on "
-           "all ordered pairs; metrics with non-zero self-distance and index sets that overlap or repeat a row; distance files whose first entry is negative; antisymmetric and nearly symmetric metrics."),
+           "all ordered pairs; metrics with non-zero self-distance and index sets that overlap or repeat a row; distance files whose first entry is negative; antisymmetric and nearly symmetric metrics; files written over an existing file (recorded as history)."),
  "C11": _e("bounded-exhaustive metamorphic exploration: all n! training orders x five monotone metric transforms; "
            "monotone ladder of 1.8e5 distances per identifier",
            "Every permutation of every tie-free training set in the bounds (integer pools, a pool with cancelling "
@@ -79,7 +79,7 @@ CHECKS = {
  "C12": _e("bounded-exhaustive exploration of fresh k-NN subgraphs plus explicit-state search over "
            "create/pdf/eliminate/destroy operation sequences (prefix replay, reference in lock-step)",
            "Every graph/lattice sequence (incl. non-identity index arrays, direction-dependent metrics, the 1e-5 "
-           "fallback alphabets) x k x k' x height on a fresh subgraph, every operation sequence to depth 4 (5) with "
+           "fallback alphabets incl. exactly 1e-5 and nearly equal distances) x k x k' x height on a fresh subgraph, every operation sequence to depth 4 (5) with "
            "state dedup, and the subgraph state left by both density fits, compared with a sorted-distance "
            "reference.", engine="explorer-B"),
  "C13": _e("bounded-exhaustive exploration of both density fits over lattice / generic / graph / squeezed-density "
@@ -97,7 +97,7 @@ CHECKS = {
            "minimax reference + differential vs SupervisedOPF",
            "Every graph on n_l+n_u <= 6 nodes over the weight alphabet x every labeling, lattice sequences, int64 "
            "labeled matrices and index arrays without pre-computed distances: full-graph minimax reference, "
-           "labeled-MST prototype family, state identity with SupervisedOPF when n_u = 0, and chains of 3..30 unlabeled samples."),
+           "labeled-MST prototype family, state identity with SupervisedOPF when n_u = 0, chains of 3..30 unlabeled samples and every spelling of an empty unlabeled set."),
  "C16": _e("stateless choice exploration: every criterion answer sequence scripted through the intercepted accuracy / "
            "cut routine (also on previously used instances); plus recorded natural criterion values",
            "All answer sequences over the criterion alphabets (with near-tie and tiny positive values) for every k "
@@ -108,7 +108,7 @@ CHECKS = {
            "with the accuracy scripted); bounded-exhaustive exploration of predict marking and prune runs",
            "All 648 tiny learn configurations over every sequence of answers of the intercepted random draw, plus "
            "every accuracy script over {0, 0.5, 1}; relevance marking against every choice of exhaustive minimisers "
-           "on all forests of the C03 families incl. zero weights, on chains of 5..40 samples and over two passes on one object; prune re-fit sets against the flags on 1-D and "
+           "on all forests of the C03 families incl. zero weights, on chains of 5..40 samples over two passes on one object and with accuracies closer than the stopping tolerance; prune re-fit sets against the flags on 1-D and "
            "2-D lattice arrangements.", engine="explorer-D"),
  "C18": _e("stateless choice exploration: every permutation answer of the intercepted numpy permutation in split; "
            "bounded-exhaustive exploration of all small OPF binary datasets through the converters/loaders/parser",
@@ -127,7 +127,7 @@ CHECKS = {
            "rational definitions; dtype x class-count sweep; in-place two-call histories",
            "All label/prediction pairs with K<=3 (4), length<=5 (6) in list and array form, K up to 300 in six "
            "integer dtypes, histories in which the caller overwrites its label array, and all small matrices incl. "
-           "ill-conditioned columns: every measure is compared with the statement's definition in Fraction "
+           "ill-conditioned and tiny-magnitude columns: every measure is compared with the statement's definition in Fraction "
            "arithmetic."),
 }
 NOT_APPLICABLE = {}
